@@ -19,6 +19,7 @@ import (
 	"fmt"
 	"math/rand"
 	"os"
+	"os/exec"
 	"reflect"
 	"runtime"
 	"strings"
@@ -686,7 +687,37 @@ func replaySched(b []byte) {
 	fmt.Printf("AGREES (the recorded history did not reproduce)\n  recorded %s\n  observed %s\n", j2, j1)
 }
 
+// replayFatal re-runs a free-running driver (stress / watch) in a child process: a fatal error of the Go runtime raised from
+// inside the package's lock handling ("sync: unlock of unlocked mutex", "all goroutines are asleep") cannot be recovered,
+// it can only be observed from outside.
+func replayFatal(b []byte) {
+	var rec struct {
+		Cmd []string `json:"cmd"`
+	}
+	if err := json.Unmarshal(b, &rec); err != nil || len(rec.Cmd) == 0 {
+		die(2, "replay file: %v", err)
+	}
+	tmp, _ := os.CreateTemp("", "fatal-replay-*.ndjson")
+	tmp.Close()
+	defer os.Remove(tmp.Name())
+	for attempt := 0; attempt < 3; attempt++ {
+		args := append(append([]string{}, rec.Cmd...), "-out", tmp.Name())
+		out, err := exec.Command(os.Args[0], args...).CombinedOutput()
+		if err != nil && strings.Contains(string(out), "fatal error:") && strings.Contains(string(out), "go-stackage.") {
+			i := strings.Index(string(out), "fatal error:")
+			end := i + 300
+			if end > len(out) {
+				end = len(out)
+			}
+			fmt.Printf("DISAGREES kind=fatal (the driver dies with a fatal runtime error raised inside the package)\n  %s\n", strings.ReplaceAll(string(out[i:end]), "\n", " | "))
+			os.Exit(1)
+		}
+	}
+	fmt.Println("AGREES (three runs of the driver ended normally)")
+}
+
 func init() {
+	replayKinds["fatal"] = replayFatal
 	commands["gated"] = cmdGated
 	commands["stress"] = cmdStress
 	commands["watch"] = cmdWatch
